@@ -29,6 +29,12 @@ def main():
         sh("git -C /repo worktree add -q --detach %s" % wt)
         try:
             rc, out = sh("git apply %s" % os.path.join(d, "patch.diff"), cwd=wt)
+            back = 0
+            while rc != 0 and back < 3:
+                # the change was made against an earlier commit of /repo (a later `fix:` touched the same lines): evaluate it there
+                back += 1
+                sh("git checkout -q --detach HEAD~%d" % back, cwd=wt)
+                rc, out = sh("git apply %s" % os.path.join(d, "patch.diff"), cwd=wt)
             if rc != 0:
                 print(json.dumps({"name": name, "error": "patch does not apply"}))
                 continue
